@@ -32,5 +32,5 @@ def replay_known(kf, workdir):
     exe = replay_bin()
     if not exe:
         raise RuntimeError('replay binary does not build: ' + _bin.get('err', ''))
-    pr = subprocess.run([exe] + kf['witness']['args'], capture_output=True, text=True, timeout=120)
+    pr = subprocess.run([exe] + kf['witness']['args'], capture_output=True, text=True, timeout=120, cwd=vunit.VERIF)
     return pr.returncode == 1
